@@ -271,8 +271,14 @@ type Server struct {
 	failKeys           map[[2]uint64]int
 	failTrce           map[uint64]int // block number -> trace_block requests to fail
 	verBase, verAttach int
-	counts             map[string]int
-	head               *Head // answer to a direct "latest" (nil = fail)
+	// parking: the next parkLeft blocks/headers batches announce themselves on
+	// Parked and are answered only after a token arrives on ParkRelease (the
+	// request is "in flight": the caller sits inside the cache's getter)
+	parkLeft    int
+	Parked      chan struct{}
+	ParkRelease chan struct{}
+	counts      map[string]int
+	head        *Head // answer to a direct "latest" (nil = fail)
 
 	// poll gate: every poll request announces itself on Arrived and waits for
 	// an answer on Release; nil = polls are answered like direct requests
@@ -308,6 +314,17 @@ func (s *Server) FailKey(start, limit uint64, n int) {
 func (s *Server) FailTrace(n uint64, k int) {
 	s.mu.Lock()
 	s.failTrce[n] = k
+	s.mu.Unlock()
+}
+
+// ParkBase makes the next n blocks/headers batches wait for ParkRelease.
+func (s *Server) ParkBase(n int) {
+	s.mu.Lock()
+	if s.Parked == nil {
+		s.Parked = make(chan struct{}, 16)
+		s.ParkRelease = make(chan struct{}, 16)
+	}
+	s.parkLeft = n
 	s.mu.Unlock()
 }
 
@@ -426,6 +443,18 @@ func (s *Server) handle(w http.ResponseWriter, r *http.Request) {
 		}
 		s.writeHead(w, ids[0], ans.Head)
 		return
+	}
+
+	s.mu.Lock()
+	park := false
+	if cls == ClsBase && s.parkLeft > 0 {
+		s.parkLeft--
+		park = true
+	}
+	s.mu.Unlock()
+	if park {
+		s.Parked <- struct{}{}
+		<-s.ParkRelease
 	}
 
 	s.mu.Lock()
